@@ -31,7 +31,7 @@ def record(ck, c, stream):
         if rs is not None and all(all(t) for _, t in rs):
             ck.fail(key0, 'every shadow assertion holds (reference) but nanoc does not terminate', S.replay_dict(c))
         if c.m_interp['cls'] != 'nofuel' and c.id not in c03.MODEL_BOUNDARY:
-            ck.fail(key0 + ':tie', 'correspondence broken: real nanoc hangs, model outcome %s' % c.m_interp['cls'], S.replay_dict(c))
+            ck.fail(key0 + ':tie', 'correspondence broken: real nanoc hangs, model outcome %s' % c.m_interp['cls'], S.replay_dict(c), tie=True)
         return
     if not c.r_verbose.get('reached'):
         ck.extra['status']['no-shadow-phase'] += 1
@@ -59,11 +59,11 @@ def record(ck, c, stream):
         if gate_bad:
             ck.fail(key0, 'gate disagrees with the language: ' + '; '.join(gate_bad[:2]), S.replay_dict(c, discrepancies=gate_bad))
         if tie and c.id not in c03.MODEL_BOUNDARY:
-            ck.fail(key0 + ':tie', 'correspondence broken: gate model != real nanoc on a witness: ' + '; '.join(tie[:2]), S.replay_dict(c, discrepancies=tie))
+            ck.fail(key0 + ':tie', 'correspondence broken: gate model != real nanoc on a witness: ' + '; '.join(tie[:2]), S.replay_dict(c, discrepancies=tie), tie=True)
         return
     if stream == 'clash':
         if tie:
-            ck.fail(key0 + ':tie', 'correspondence broken: gate model != real nanoc: ' + '; '.join(tie[:2]), S.replay_dict(c, discrepancies=tie))
+            ck.fail(key0 + ':tie', 'correspondence broken: gate model != real nanoc: ' + '; '.join(tie[:2]), S.replay_dict(c, discrepancies=tie), tie=True)
         elif gate_bad and c.m_apart:
             ck.fail(key0, 'names_apart program on which the gate disagrees with the language: ' + '; '.join(gate_bad[:2]), S.replay_dict(c, discrepancies=gate_bad))
         elif gate_bad:
@@ -77,7 +77,7 @@ def record(ck, c, stream):
         ck.fail(key0 + ':later-phase', 'all shadow tests pass but no executable: ' + later[0], S.replay_dict(c))
     if tie:
         ck.fail(key0 + ':tie', 'correspondence broken: Driver/ShadowGate model != real nanoc (gate %s on this input): %s' % (
-            'violated' if gate_bad else 'holds', '; '.join(tie[:2])), S.replay_dict(c, correspondence='Driver.ShadowGate.nanoc vs nanoc', discrepancies=tie))
+            'violated' if gate_bad else 'holds', '; '.join(tie[:2])), S.replay_dict(c, correspondence='Driver.ShadowGate.nanoc vs nanoc', discrepancies=tie), tie=not gate_bad)
     # dropped shadow blocks must be reported (implementation-side: stderr)
     want = sorted(progen.fname(n) for n in getattr(c, 'dropped_shadows', []))
     import re
@@ -129,7 +129,7 @@ def run(ck):
     skip_extern_case(ck, b, nv3)
     # 2. main stream: all placements of the failing assertion; some functions lose their shadow block
     cfg = S.stream_cfg(openk)
-    n = 360 if ck.thorough else 72
+    n = 1200 if ck.thorough else 108
     cases = S.build_cases(ck, nvl, [ck.seed * 611953 + i for i in range(n)], cfg, S.MUTATIONS, 'g%d' % ck.seed, drop_shadow_prob=0.12)
     S.run_models(nv3, nvl, cases)
     S.run_real(b, cases, 'c06m', want_native=False)
@@ -141,7 +141,7 @@ def run(ck):
         for f in c.feat:
             ck.extra['features'][f] += 1
     # 3. clash stream (the evaluator's truth values are not the language's: the model must still predict the gate)
-    m = 80 if ck.thorough else 16
+    m = 200 if ck.thorough else 24
     clash = S.build_cases(ck, nvl, [ck.seed * 15485863 + i for i in range(m)], None, ['none', 'last', 'many'], 'q%d' % ck.seed, genf=S.clash_program)
     for c in clash:
         c.timeout = 12
